@@ -2,7 +2,7 @@
 names of NewT / NewC when XV_DEPRECATE=1 (a workspace is first filled *before* the deprecation)"""
 import os
 
-from experimaestro import Config, Param, Task, deprecate
+from experimaestro import Config, LightweightTask, Param, Task, deprecate
 
 
 class NewC(Config):
@@ -11,6 +11,15 @@ class NewC(Config):
 
 class OldC(NewC):
     pass
+
+
+class InitT(LightweightTask):
+    """An init task: part of the identity of the job it is submitted with"""
+
+    k: Param[int]
+
+    def execute(self):
+        pass
 
 
 class NewT(Task):
@@ -28,3 +37,24 @@ class OldT(NewT):
 if os.environ.get("XV_DEPRECATE") == "1":
     OldC = deprecate(OldC)
     OldT = deprecate(OldT)
+
+
+def make(j, old):
+    """The jobs of the repair scenarios.  1: deprecated task class; 2: replacement task holding a deprecated configuration,
+    submitted with an init task; 3: nothing deprecated (its identifier never changes), submitted with an init task.
+    old: as written by the program before the deprecation"""
+    n = int(j)
+    if j == "1":
+        return (OldT if old else NewT)(n=n, c=NewC(v=n)), []
+    if j == "2":
+        return NewT(n=n, c=(OldC if old else NewC)(v=n)), [InitT(k=n)]
+    return NewT(n=n, c=NewC(v=n)), [InitT(k=n)]
+
+
+def submit(j, old):
+    t, init = make(j, old)
+    if init:
+        t.submit(init_tasks=init)
+    else:
+        t.submit()
+    return t
